@@ -373,6 +373,9 @@ func checkC07(reg *Registry, c fnCase) pbt.Result {
 		if e := call("ReadResultTL2WriteResultTL1", func() { rest, back2, err = fn.ReadResultTL2WriteResultTL1(&basictl.TL2ReadContext{}, t2, nil) }); e != nil {
 			return pbt.Fail("%s: %v", c.Item, e)
 		}
+		if err == nil && len(rest) == 0 && !eq(back2, r1) && onlyNegZeroDiffs(r1, back2) && pbt.Known("F24") && !pbt.Replaying() {
+			return pbt.Result{Excluded: "F24"} // a negative zero is the empty value for the TL2 writer
+		}
 		if err != nil || len(rest) != 0 || !eq(back2, r1) {
 			return pbt.Fail("%s: TL1->TL2->TL1 does not reproduce the result: %s (err %v, %d bytes left); TL2 %s", c.Item, diffAt(r1, back2), err, len(rest), hexHead(t2))
 		}
